@@ -396,7 +396,7 @@ impl Property for C08 {
     fn cases(tier: Tier) -> u32 {
         match tier {
             Tier::Quick => 2500,
-            Tier::Thorough => 30_000,
+            Tier::Thorough => 12_000,
         }
     }
 
@@ -411,7 +411,7 @@ impl Property for C08 {
     fn strategy(tier: Tier) -> BoxedStrategy<Case> {
         let maxlen = match tier {
             Tier::Quick => 80u16,
-            Tier::Thorough => 300u16,
+            Tier::Thorough => 150u16,
         };
         let op = prop_oneof![
             12 => step_strategy(true).prop_map(Op::S),
